@@ -286,3 +286,15 @@ CHECKS["C15"] = {
     "outside": ["whole-font reading (sfnt.Read) and the best-subtable choice inside it (C09)", "20 language systems", "GSUB features beyond the synthesized ligatures"],
     "assumptions": ["language matching (golang.org/x/text/language) runs natively on concrete tags"],
 }
+
+CHECKS["C18"] = {
+    "harnesses": [
+        H("header", ["c18.go", "c03.go"], "VerifH_C18_write", ["success", "fault"], quick={"timeout": 280, "shards": 2}),
+        H("header", ["c18.go", "c03.go"], "VerifH_C18_read", ["truncated", "failing directory"], quick={"timeout": 280, "shards": 2}),
+        H("parser", "c17.go", "VerifH_C17_history", ["done"], quick={"params": {"steps": 2, "shorts": 1}, "timeout": 280, "shards": 6}),
+    ],
+    "bounds": {"quick": "containers with 1..3 tables (optional 54-byte head, a table of 0/1/4/5 bytes, optionally a third of 2/3/8 bytes, symbolic contents): a writer accepting exactly k bytes for every k in 0..len+4 (k symbolic); the written file truncated to every k < len; a ReaderAt returning a non-EOF error for any access touching offset >= k, for every k; parser short reads (shared with C17, first 6 file lengths)",
+               "thorough": "same"},
+    "outside": ["the full font writer / reader ((*Font).Write, sfnt.Read, cff.Font.Write) with injected faults", "streaming (non-seekable) readers", "files larger than ~150 bytes"],
+    "assumptions": ["the failing writer reports short writes together with an error (io.Writer contract)"],
+}
